@@ -361,7 +361,7 @@ def extract_playback_tests(stdout):
     return tests
 
 
-def run_playback(scratch, ob, tests):
+def run_playback(scratch, ob, tests, expect=None):
     """Appends the generated unit tests to the (scratch copy of the) harness module and runs them natively."""
     dst = os.path.join(scratch, "verif_harness", ob["module"].replace("/", "__"))
     have = open(dst).read()
@@ -378,6 +378,12 @@ def run_playback(scratch, ob, tests):
     out = p.stdout
     panics = re.findall(r"panicked at [^\n]*\n[^\n]*", out)
     reproduced = p.returncode != 0 and bool(panics) and "test result: FAILED" in out
+    if reproduced and expect:
+        # the native panic must be the one the verifier reported (same message), not e.g. a harness assertion that fails
+        # natively only because kani::stub replacements are not applied in a native build
+        def norm(x):
+            return re.sub(r"\s+", " ", x.strip().strip('"'))[:60]
+        reproduced = any(norm(e) and norm(e) in re.sub(r"\s+", " ", out) for e in expect)
     k_ = out.find("running ")
     tail = (out[k_:] if k_ >= 0 else out)[-3000:]
     return reproduced, ("; ".join(panics[:3]) + "\n" + tail) if panics else tail
@@ -629,7 +635,7 @@ def check_property(prop, tier, only, keep, jobs):
                     tests = extract_playback_tests(pout)
                     rp["playback_tests"] = tests
                     if tests:
-                        ok, rout = run_playback(scratch, o, tests)
+                        ok, rout = run_playback(scratch, o, tests, expect=[c_.get("description", "") for c_ in chks])
                         rp["replayed"] = ok
                         rp["replay_output"] = rout
                         noinput = not ok
